@@ -518,6 +518,9 @@ func (fr *Frame) execInstr(ins ssa.Instruction) {
 			}
 			fr.safety("nil-elem", ins, "(forall ((q_k Int)) (=> (and (<= 0 q_k) (< q_k "+sqLen(v.T, el)+")) "+nn+"))", "elements of "+a.Ptr.Struct+"."+a.Ptr.Field)
 		}
+		if v.Borrow != nil && (a.Ptr.Kind == "field" || a.Ptr.Kind == "global" || a.Ptr.Kind == "index") {
+			fr.ownBytes(ins, v, "stored in the heap")
+		}
 		if a.Ptr.Kind == "field" && v.S.K == KAny && ex.safety && ex.strongIface(ex.fieldGoType(a.Ptr.Struct, a.Ptr.Field)) {
 			fr.safety("boxed-nil", ins, wfIface(v.T), "store to "+a.Ptr.Struct+"."+a.Ptr.Field)
 		}
@@ -617,6 +620,7 @@ func (fr *Frame) execInstr(ins ssa.Instruction) {
 				rv := fr.havocVal("recv", s)
 				rv.GoT = i.Type()
 				fr.assumeNonNilReceived(rv)
+				fr.chanInv(i, i.Type(), rv, false)
 				fr.setVal(i, rv)
 			}
 		case token.XOR:
@@ -669,6 +673,7 @@ func (fr *Frame) execInstr(ins ssa.Instruction) {
 		}
 		v := &Val{T: vc.define(i.Name(), SAny, t), S: SAny}
 		v.Elems = []*Val{x} // remember the boxed value for fmt expansion
+		v.Dyn = i.X.Type()
 		v.Clo = x.Clo
 		fr.setVal(i, v)
 	case *ssa.TypeAssert:
@@ -765,6 +770,15 @@ func (fr *Frame) execInstr(ins ssa.Instruction) {
 		for k := 2; k < len(v.Tup); k++ {
 			fr.assumeNonNilReceived(v.Tup[k])
 		}
+		ri := 2
+		for _, stt := range i.States {
+			if stt.Dir == types.RecvOnly && ri < len(v.Tup) {
+				if ct, ok := stt.Chan.Type().Underlying().(*types.Chan); ok {
+					fr.chanInv(i, ct.Elem(), v.Tup[ri], false)
+				}
+				ri++
+			}
+		}
 		fr.setVal(i, v)
 	case *ssa.Send:
 		fr.ghostSend(i)
@@ -795,6 +809,27 @@ func (fr *Frame) execInstr(ins ssa.Instruction) {
 		vals := []*Val{}
 		for _, r := range i.Results {
 			vals = append(vals, fr.val(r))
+		}
+		if ex.depth == 0 && i.Parent() == ex.topFn {
+			var c *Contract
+			if ex.cs != nil {
+				c = ex.cs.Funcs[ex.fnKey(ex.topFn)]
+			}
+			for k, v := range vals {
+				if v.Borrow == nil {
+					continue
+				}
+				if c != nil && c.BorrowedResult != "" && k == 0 {
+					// declared: the result may alias the named reader's buffer, and is still valid on return
+					if pv, ok := fr.params[c.BorrowedResult]; ok {
+						re := ex.get(fr.cur, fr.ghost("RE"))
+						g := imp(v.Borrow.Active, and(eq(v.Borrow.Reader, pv.T), eq("(select "+re+" "+v.Borrow.Reader+")", v.Borrow.Epoch)))
+						vc.oblige("borrow", ex.oblName(fr.key+"/borrow-result"), fr.curReach, g, "a borrowed result aliases the declared reader and is still valid on return", ex.posOf(ins.Pos()), nil)
+						continue
+					}
+				}
+				fr.ownBytes(ins, v, fmt.Sprintf("result %d", k))
+			}
 		}
 		if ex.safety && ex.depth == 0 && i.Parent() == ex.topFn {
 			rs := i.Parent().Signature.Results()
@@ -964,9 +999,11 @@ func (fr *Frame) convert(i *ssa.Convert) *Val {
 	to := ex.w.SortOf(i.Type())
 	switch {
 	case sameSort(from, to):
+		fr.useBytes(i, x, "conversion")
 		nv := *x
 		nv.GoT = i.Type()
 		nv.Prov = nil
+		nv.Borrow = nil
 		return &nv
 	case from.K == KInt && to.K == KReal:
 		return &Val{T: "(to_real " + x.T + ")", S: to}
@@ -1107,7 +1144,27 @@ func (fr *Frame) assumeNonNilReceived(v *Val) {
 	}
 }
 
+// chanInv: invariant of values of a channel element type (assume at receive, prove at send).
+func (fr *Frame) chanInv(ins ssa.Instruction, elem types.Type, v *Val, prove bool) {
+	ex := fr.ex
+	if ex.cs == nil || v == nil {
+		return
+	}
+	for k, inv := range ex.cs.ChanInvs[ex.w.typeName(elem)] {
+		env := &Env{ex: ex, vars: map[string]*Val{"$v": v}, cur: fr.cur, old: fr.cur, fr: fr}
+		g := ex.trBool(inv.Expr, env)
+		if prove {
+			ex.vc.oblige("chaninv", ex.oblName(fmt.Sprintf("%s/chaninv@%s:%d", fr.key, ex.w.typeName(elem), k)), fr.curReach, g, inv.Src, ex.posOf(ins.Pos()), nil)
+		} else {
+			ex.vc.assume(imp(fr.curReach, g))
+		}
+	}
+}
+
 func (fr *Frame) ghostSend(i *ssa.Send) {
+	if ct, ok := i.Chan.Type().Underlying().(*types.Chan); ok {
+		fr.chanInv(i, ct.Elem(), fr.val(i.X), true)
+	}
 	if fr.ex.safety {
 		x := fr.val(i.X)
 		switch x.S.K {
